@@ -9,8 +9,18 @@
       - wind-down: with nothing pending the worker count falls, never rises, and reaches
         0 within 3 * idle + 1 s after the last activity;
       - restart: a Call after wind-down is served.
-    The three timing bounds are >= 100 x the quiet-system values; the harness sends a
-    case that exceeds one only after it persisted over three runs of the scenario. *)
+      - progress on snapshots: the head of the queue is never seen due for longer than
+        [late_bound] (spec/TimerObs.v, snap_progress_ok).
+    [RearmCase]: the "tight re-arm behind a distant future" stream (a distant future keeps
+    the worker heading for a long sleep while 1..4 callers schedule due futures one right
+    after the other): sampled iterations as [lfut]s, the distant futures, a future that did
+    not start within the bound (if any, with the lock-held snapshot taken at that moment),
+    and the per-iteration facts folded over all iterations.
+    [ParamsCase]: the premises of the theorems of Properties/C13.v read through the hook
+    VerifPool: 0 <= idleTimeout, 1 <= maxWorkers, 1 <= cap(wakeCh).
+    The timing bounds are >= 100 x the quiet-system values; the harness sends a case that
+    exceeds one only after it persisted over three runs of the scenario while the
+    machine's canary was quiet. *)
 From Coq Require Import List ZArith NArith Bool.
 From GL Require Import model.THeap model.TPool spec.TimerObs.
 Import ListNotations.
@@ -49,21 +59,66 @@ Definition restart_ok (c : pcase) : bool :=
   if p_restart c =? -1 then true
   else (p_restart c =? 1) && (0 <? p_restart_lag c) && (p_restart_lag c <=? late_bound).
 
+Definition progress_ok (c : pcase) : bool :=
+  if p_prompt c then forallb (snap_progress_ok late_bound) (lc_snaps (p_live c)) else true.
+
 Definition check_pcase (c : pcase) : bool :=
-  check_live (p_live c) && lateness_ok c && wind_ok c && restart_ok c.
+  check_live (p_live c) && lateness_ok c && wind_ok c && restart_ok c && progress_ok c.
 
-Inductive case := PoolCase (id : N) (c : pcase).
+(** * tight re-arm behind a distant future *)
+Record rcase := mkRC {
+  r_live : lcase;               (* distant futures, sampled iterations, stalled futures; snapshots *)
+  r_calls : Z;                  (* futures scheduled by the callers that must start *)
+  r_started : Z;                (* of those, seen started by their caller within the bound *)
+  r_callbacks : Z;              (* callbacks of those futures that ran in total *)
+  r_min_margin : Z;             (* min over iterations of start - (instant before Call + d) *)
+  r_max_late : Z;               (* max over iterations of start - (instant after Call + d) *)
+  r_cancelled : Z;              (* near heads cancelled at once (Cancel returned before call + d) *)
+  r_cancel_slow : Z;            (* near heads whose Cancel returned later than that *)
+  r_cancelled_started : Z       (* callbacks of near heads that ran: at most the slow ones *)
+}.
 
-Definition c_id (c : case) : N := match c with PoolCase i _ => i end.
-Definition check_case (c : case) : bool := match c with PoolCase _ p => check_pcase p end.
+Definition check_rcase (c : rcase) : bool :=
+  let lc := r_live c in
+  forallb fut_ok (lc_futs lc) && nodup_b (map lf_id (lc_futs lc))
+  && forallb (snap_state_ok lc) (lc_snaps lc)
+  && forallb (fun s => forallb (absent_ok s) (lc_futs lc)) (lc_snaps lc)
+  && forallb (snap_progress_ok late_bound) (lc_snaps lc)
+  && (r_started c =? r_calls c)                       (* every one started ... *)
+  && (r_callbacks c <=? r_calls c)                    (* ... at most once *)
+  && ((r_started c =? 0) || (0 <? r_min_margin c))    (* never early *)
+  && (r_max_late c <=? late_bound)
+  && (r_cancelled_started c <=? r_cancel_slow c).     (* cancel effective *)
+
+(** * premises of the theorems *)
+Definition check_params (idle_ maxw_ wcap_ : Z) : bool :=
+  (0 <=? idle_) && (1 <=? maxw_) && (1 <=? wcap_).
+
+Inductive case :=
+| PoolCase (id : N) (c : pcase)
+| RearmCase (id : N) (c : rcase)
+| ParamsCase (id : N) (idle_ maxw_ wcap_ : Z).
+
+Definition c_id (c : case) : N :=
+  match c with PoolCase i _ | RearmCase i _ | ParamsCase i _ _ _ => i end.
+Definition check_case (c : case) : bool :=
+  match c with
+  | PoolCase _ p => check_pcase p
+  | RearmCase _ r => check_rcase r
+  | ParamsCase _ i m w => check_params i m w
+  end.
 
 Definition mismatches (cs : list case) : list N :=
   map c_id (filter (fun c => negb (check_case c)) cs).
 
 (* for replay: which part failed; the worst lateness *)
 Record explanation := mkEx {
-  ex_bad_futures : list fid; ex_bad_snapshots : list Z;
-  ex_lateness_ok : bool; ex_max_lateness : Z; ex_wind_ok : bool; ex_restart_ok : bool }.
+  ex_bad_futures : list fid; ex_bad_snapshots : list Z; ex_no_progress_snapshots : list Z;
+  ex_lateness_ok : bool; ex_max_lateness : Z; ex_wind_ok : bool; ex_restart_ok : bool;
+  ex_counts_ok : bool; ex_params_ok : bool }.
+
+Definition max_lateness (lc : lcase) : Z :=
+  fold_left Z.max (flat_map (fun f => map (fun s => s - lf_fire f) (lf_starts f)) (lc_futs lc)) 0.
 
 Definition explain (c : case) : explanation :=
   match c with
@@ -71,7 +126,16 @@ Definition explain (c : case) : explanation :=
       let lc := p_live p in
       mkEx (map lf_id (filter (fun f => negb (fut_ok f)) (lc_futs lc)))
            (map ls_t0 (filter (fun s => negb (snap_ok lc s)) (lc_snaps lc)))
-           (lateness_ok p)
-           (fold_left Z.max (flat_map (fun f => map (fun s => s - lf_fire f) (lf_starts f)) (lc_futs lc)) 0)
-           (wind_ok p) (restart_ok p)
+           (map ls_t0 (filter (fun s => negb (snap_progress_ok late_bound s)) (lc_snaps lc)))
+           (lateness_ok p) (max_lateness lc) (wind_ok p) (restart_ok p) true true
+  | RearmCase _ r =>
+      let lc := r_live r in
+      mkEx (map lf_id (filter (fun f => negb (fut_ok f)) (lc_futs lc)))
+           (map ls_t0 (filter (fun s => negb (snap_state_ok lc s)) (lc_snaps lc)))
+           (map ls_t0 (filter (fun s => negb (snap_progress_ok late_bound s)) (lc_snaps lc)))
+           (r_max_late r <=? late_bound) (Z.max (max_lateness lc) (r_max_late r)) true true
+           ((r_started r =? r_calls r) && (r_callbacks r <=? r_calls r)
+            && ((r_started r =? 0) || (0 <? r_min_margin r)) && (r_cancelled_started r <=? r_cancel_slow r))
+           true
+  | ParamsCase _ i m w => mkEx [] [] [] true 0 true true true (check_params i m w)
   end.
